@@ -112,6 +112,8 @@ CONCRETISERS = {
     "inmemory.inMemoryPersistence).Logs": _READ,
     "rest.Distributor).distributeForLog": _DIST,
     "rest.Distributor).DistributeOnce": _DIST,
+    "rest.NewDistributor$1": _DIST,
+    "rest.NewDistributor": _DIST,
     "feeder.submitToWitness$1": _FEED,
     "feeder.submitToWitness": _FEED,
     "feeder.FeedOnce": _FEED,
